@@ -35,6 +35,13 @@ def main():
         env_t = dict(env, CARGO_TARGET_DIR=f"{D}/rt")
         demo = open(f"{mdir}/demo.rs").read()
         feats = "--features serde" if "serde" in demo else ""
+        try:
+            demo_cmd = json.load(open(f"{mdir}/meta.json")).get("demo_cmd", "") or ""
+        except Exception:
+            demo_cmd = ""
+        single = "-- --test-threads=1" if ("test-threads=1" in demo_cmd or "test-threads=1" in demo) else ""
+        # a demo that needs a non-UTC system zone runs in a private mount namespace
+        wrap = ("unshare -m sh -c 'mount -t tmpfs -o size=1m tmpfs /etc && ln -s /usr/share/zoneinfo/Asia/Tokyo /etc/localtime && exec \"$0\" \"$@\"' " if "unshare" in demo_cmd else "")
         # (1) baseline suite with the mutant
         rc, out = sh("cargo test --offline --workspace --no-fail-fast 2>&1 | grep -E '^test result|FAILED|failed' ", cwd=f"{D}/repo", env=env_t)
         res["baseline_suite_passes_with_mutant"] = ("FAILED" not in out and "failed;" in out and not re.search(r"[1-9]\d* failed", out))
@@ -43,12 +50,12 @@ def main():
         res["serde_lib_suite_passes_with_mutant"] = ("FAILED" not in out2 and not re.search(r"[1-9]\d* failed", out2))
         # (2) demo with mutant
         shutil.copy(f"{mdir}/demo.rs", f"{D}/repo/tests/seeded_demo.rs")
-        rc, out = sh(f"cargo test --offline {feats} --test seeded_demo 2>&1 | tail -25", cwd=f"{D}/repo", env=env_t)
+        rc, out = sh(f"{wrap}cargo test --offline {feats} --test seeded_demo {single} 2>&1 | tail -25", cwd=f"{D}/repo", env=env_t)
         res["demo_fails_with_mutant"] = bool(re.search(r"[1-9]\d* failed|panicked|FAILED", out)) and "could not compile" not in out
         res["demo_with_mutant_tail"] = out[-600:]
         # (3) demo without mutant
         sh(f"git apply -R {mdir}/patch.diff", cwd=f"{D}/repo")
-        rc, out = sh(f"cargo test --offline {feats} --test seeded_demo 2>&1 | tail -8", cwd=f"{D}/repo", env=env_t)
+        rc, out = sh(f"{wrap}cargo test --offline {feats} --test seeded_demo {single} 2>&1 | tail -8", cwd=f"{D}/repo", env=env_t)
         res["demo_passes_without_mutant"] = bool(re.search(r"test result: ok", out)) and not re.search(r"[1-9]\d* failed", out)
         os.remove(f"{D}/repo/tests/seeded_demo.rs")
         shutil.rmtree(f"{D}/rt", ignore_errors=True)
